@@ -63,6 +63,7 @@ def case_strategy(draw):
     # occasionally the first catalog is created from a patch-index column and the others take
     # their centres from that catalog (centres derived by the library instead of given)
     scene["derived"] = draw(st.integers(0, 5)) == 0
+    scene["chunksize"] = draw(st.sampled_from([None, None, None, 1, 2, 5]))
     again = draw(st.sampled_from([None, None, None, None, "closed", "edges", "shorter", "longer"]))
     if huge:
         again = None
@@ -72,27 +73,31 @@ def case_strategy(draw):
 def build_catalogs(case, tmp):
     centers = case["scene"]["centers"]
     cats = case["scene"]["cats"]
+    # the input tables are read in one chunk or in small chunks (a chunk then lacks some patches)
+    import functools
+
+    make = functools.partial(pl.make_catalog, chunksize=case["scene"].get("chunksize"))
     if case["scene"].get("derived"):
         # first catalog from a patch-index column, the others take their centres from it
         samples = pl.scene_samples(case["scene"])
         if samples is None:
             raise pl.SceneUnusable("derived centres leave a patch empty")
         names = ["data", "rand"] if case["mode"] == "auto" else ["ref", "unk"] + {"unk": ["unk_rand"], "ref": ["ref_rand"], "both": ["ref_rand", "unk_rand"]}[case["opts"]["rands"]]
-        objs = {names[0]: pl.make_catalog(tmp / names[0], cats[0], patch_ids=samples[0].patch)}
+        objs = {names[0]: make(tmp / names[0], cats[0], patch_ids=samples[0].patch)}
         for name, cat in zip(names[1:], cats[1:]):
-            objs[name] = pl.make_catalog(tmp / name, cat, objs[names[0]])
+            objs[name] = make(tmp / name, cat, objs[names[0]])
         return objs
     if case["mode"] == "auto":
-        return {"data": pl.make_catalog(tmp / "data", cats[0], centers), "rand": pl.make_catalog(tmp / "rand", cats[1], centers)}
+        return {"data": make(tmp / "data", cats[0], centers), "rand": make(tmp / "rand", cats[1], centers)}
     rands = case["opts"]["rands"]
-    objs = {"ref": pl.make_catalog(tmp / "ref", cats[0], centers), "unk": pl.make_catalog(tmp / "unk", cats[1], centers)}
+    objs = {"ref": make(tmp / "ref", cats[0], centers), "unk": make(tmp / "unk", cats[1], centers)}
     if rands == "unk":
-        objs["unk_rand"] = pl.make_catalog(tmp / "unk_rand", cats[2], centers)
+        objs["unk_rand"] = make(tmp / "unk_rand", cats[2], centers)
     elif rands == "ref":
-        objs["ref_rand"] = pl.make_catalog(tmp / "ref_rand", cats[2], centers)
+        objs["ref_rand"] = make(tmp / "ref_rand", cats[2], centers)
     else:
-        objs["ref_rand"] = pl.make_catalog(tmp / "ref_rand", cats[2], centers)
-        objs["unk_rand"] = pl.make_catalog(tmp / "unk_rand", cats[3], centers)
+        objs["ref_rand"] = make(tmp / "ref_rand", cats[2], centers)
+        objs["unk_rand"] = make(tmp / "unk_rand", cats[3], centers)
     return objs
 
 
